@@ -527,3 +527,58 @@ def c16_miri(a):
             raise Inconclusive(f"miri run for ML-DSA-{st} ended without a verdict: {err[-400:]}")
     return dict(property_id="C16", stage="c16-miri", build="miri", tier=a["tier"], seed=a["seed"], rule="", exhaustive=False,
                 evaluations=evals, distinct_nontrivial=evals, samples=samples, counters=dict(miri_probes=evals), violations=violations, inconclusive=[], wall_s=time.time() - t0)
+
+
+# ---------------------------------------------------------------------------------------------
+# C13 thorough: coverage-guided hostile workload (cargo-fuzz = libFuzzer + ASan, debug assertions on)
+# ---------------------------------------------------------------------------------------------
+
+def c13_fuzz(a):
+    proj = os.path.join(a["verif"], "fuzzproj")
+    if subprocess.run(["cargo", "+nightly", "fuzz", "--version"], capture_output=True).returncode != 0:
+        raise Inconclusive("cargo-fuzz not available")
+    env = dict(a["env"])
+    t0 = time.time()
+    per_target = 25 if a["tier"] == "quick" else 100
+    r = subprocess.run(["cargo", "+nightly", "fuzz", "build"], cwd=proj, env=env, capture_output=True, text=True, timeout=3600)
+    if r.returncode != 0:
+        raise Inconclusive(f"cargo fuzz build failed: {r.stderr[-600:]}")
+    violations, inconclusive, samples, counters = [], [], [], {}
+    evals = 0
+    for target in ("fuzz_verify", "fuzz_sk", "fuzz_decode"):
+        art = os.path.join(proj, "fuzz", "artifacts", target)
+        shutil.rmtree(art, ignore_errors=True)
+        corpus = os.path.join(proj, "fuzz", "corpus", target)
+        os.makedirs(corpus, exist_ok=True)
+        cmd = ["cargo", "+nightly", "fuzz", "run", target, "--", f"-max_total_time={per_target}", "-timeout=20", "-rss_limit_mb=4096",
+               f"-seed={a['seed']}", "-fork=16", "-ignore_timeouts=1", "-ignore_ooms=1", "-max_len=16384", "-len_control=0"]
+        r = subprocess.run(cmd, cwd=proj, env=env, capture_output=True, text=True, timeout=per_target * 6 + 900)
+        m = re.findall(r"#(\d+):? cov: (\d+)", r.stderr)
+        execs = max([int(x[0]) for x in m], default=0)
+        cov = max([int(x[1]) for x in m], default=0)
+        evals += execs
+        counters[f"{target}_executions"] = execs
+        counters[f"{target}_coverage_edges"] = cov
+        crashes = sorted(f for f in (os.listdir(art) if os.path.isdir(art) else []) if f.startswith("crash-"))
+        slow = [f for f in (os.listdir(art) if os.path.isdir(art) else []) if f.startswith(("timeout-", "oom-", "slow-unit-"))]
+        if slow:
+            inconclusive_note = f"{target}: {len(slow)} timeout/oom units (inconclusive, not a violation)"
+            counters[f"{target}_timeouts_or_ooms"] = len(slow)
+            a["log"](inconclusive_note)
+        for c in crashes[:3]:
+            data = open(os.path.join(art, c), "rb").read()
+            # what did it die of
+            why = re.findall(r"(panicked at [^\n]+\n[^\n]*|ERROR: AddressSanitizer[^\n]*|SUMMARY: [^\n]*)", r.stderr)
+            first = why[0].replace("\n", " ")[:300] if why else "crash"
+            key = re.sub(r":\d+:\d+", "", first)[:120]
+            violations.append(dict(signature=f"C13|fuzz-crash|{target}|{key}", detail=f"libFuzzer target {target} crashed: {first}",
+                                   replay=dict(kind="c13-fuzz", target=target, input_hex=data.hex()[:40000], artifact=c)))
+        if execs == 0:
+            inconclusive.append(f"{target}: libFuzzer reported no executions: {r.stderr[-300:]}")
+        samples.append(dict(target=target, executions=execs, coverage_edges=cov, crashes=len(crashes)))
+    return dict(property_id="C13", stage="c13-fuzz", build="asan+libfuzzer+debug-assertions", tier=a["tier"], seed=a["seed"], rule="", exhaustive=False,
+                evaluations=evals, distinct_nontrivial=sum(v for k, v in counters.items() if k.endswith("coverage_edges")),
+                samples=samples, counters=counters, violations=violations, inconclusive=inconclusive, wall_s=time.time() - t0)
+
+
+PLANS["C13"]["stages"].append(dict(name="c13-fuzz", kind="py", func="c13_fuzz", tiers=["thorough"]))
